@@ -4,9 +4,13 @@ Confirms a seeded change (tools/confirmseed.sh), runs the named checks against i
 import json, os, shutil, subprocess, sys
 pid, src, name, checks = sys.argv[1], sys.argv[2], sys.argv[3], sys.argv[4].split(",")
 orig = "/tmp/wt-" + pid
-r = subprocess.run(["/verif/tools/confirmseed.sh", src, orig], capture_output=True, text=True)
-print(r.stdout[-600:])
-if "CONFIRM ok" not in r.stdout:
+pre = os.environ.get("CONFIRM_OUT")   # output of a confirmseed.sh run done beforehand (parallel confirmations)
+if pre:
+    out = open(pre).read()
+else:
+    out = subprocess.run(["/verif/tools/confirmseed.sh", src, orig], capture_output=True, text=True).stdout
+print(out[-600:])
+if "CONFIRM ok" not in out:
     sys.exit("not confirmed")
 res = {}
 for c in checks:
